@@ -359,6 +359,9 @@ var YieldsOn bool
 // Plain increments: only meaningful in single-goroutine use.
 var Work uint64
 
+// Tick counts one loop iteration of library code (inserted by the overlay in every loop body).
+func Tick() { Work++ }
+
 // Yield is a scheduling point without a synchronisation object.
 func Yield(name string) {
 	Work++
